@@ -77,9 +77,9 @@ func (c *FnCtx) inspectSchema(st *State, call *ast.CallExpr, rootE ast.Expr, lit
 		ls = c.contract.Inspects[name]
 	}
 	evSort := c.ts.sliceSort(SInt)
-	c.smt.fun("insp_events", []string{SInt}, evSort)
-	c.smt.fun("insp_in", []string{SInt, SInt}, SBool)
-	ev := mk("insp_events", evSort, root)
+	c.smt.fun("sf_inspEvents", []string{SInt}, evSort)
+	c.smt.fun("sf_inspIn", []string{SInt, SInt}, SBool)
+	ev := mk("sf_inspEvents", evSort, root)
 	n := c.sliceLen(ev)
 	env := map[string]*Term{"$i": intLit(0), "$seq": ev, "$root": root, "$n": n}
 	c.checkInvs(st, ls, "inv-init", call, 0, env)
@@ -96,7 +96,7 @@ func (c *FnCtx) inspectSchema(st *State, call *ast.CallExpr, rootE ast.Expr, lit
 	b := st.clone()
 	b.pc = append(b.pc, mkLt(iv, n))
 	node := c.sliceAt(ev, iv)
-	b.pc = append(b.pc, mkOr(mkEq(node, intLit(0)), mk("insp_in", SBool, node, root)))
+	b.pc = append(b.pc, mkOr(mkEq(node, intLit(0)), mk("sf_inspIn", SBool, node, root)))
 	env["$node"] = node
 	for _, o := range c.runClosureBody(b, lit, []*Term{node.withGo(nodeT)}) {
 		if o.flow != FReturn {
@@ -119,7 +119,7 @@ func (c *FnCtx) inspectSchema(st *State, call *ast.CallExpr, rootE ast.Expr, lit
 		c.trustedUsed["schema: go/ast.Inspect with a function that always returns true visits every node of the subtree"] = true
 		c.quantN++
 		nv := leaf(fmt.Sprintf("in!%d", c.quantN), SInt)
-		st.pc = append(st.pc, mkForall([]Bound{{nv.Op, SInt}}, mkImplies(mk("insp_in", SBool, nv, root), c.seqContains(ev, nv)), []*Term{mk("insp_in", SBool, nv, root)}))
+		st.pc = append(st.pc, mkForall([]Bound{{nv.Op, SInt}}, mkImplies(mk("sf_inspIn", SBool, nv, root), c.seqContains(ev, nv)), []*Term{mk("sf_inspIn", SBool, nv, root)}))
 	}
 }
 
